@@ -29,10 +29,8 @@
 /* all watched cells satisfy P */
 #define ALLW(P) (P (0) && P (1) && P (2))
 
-/* element lifetimes (C03): cells below size () are live, cells between size () and capacity () are raw */
-#define CELL1(s, i) \
-  (IMPLIES (IN_RANGE (WP[i], DATA (s), SZ (s)), LIVE (i)) \
-   && IMPLIES (IN_RANGE (WP[i], DATA (s), CAP (s)) && OFF (WP[i]) >= OFF (DATA (s)) + (SZ (s) << ESZ_LOG2), RAW (i)))
+/* element lifetimes (C03): inside the object that holds the elements, exactly the size () cells from data () on hold a live element */
+#define CELL1(s, i) IMPLIES (SAMEOBJ (WP[i], DATA (s)), IFF (LIVE (i), IN_RANGE (WP[i], DATA (s), SZ (s))))
 #define CELLS(s) (CELL1 (s, 0) && CELL1 (s, 1) && CELL1 (s, 2))
 
 /* allocation ledger (C04): a heap buffer is a live block of exactly capacity () elements of the container's allocator */
@@ -90,7 +88,37 @@
 
 /* ghost objects a cell operation may change */
 #define GHOST_CELLS __CPROVER_object_whole (WS), used_kinds
+#define GHOST_TEMP  WP[WT]
 #define GHOST_EXC   exc, exc_kind
 #define GHOST_BLOCK WBL, WBN, WBA, alloc_calls, dealloc_calls
+
+/* ---- whole-container post-state predicates (entry snapshot through __CPROVER_old) -------------- */
+#define ODATA(s) __CPROVER_old (DATA (s))
+#define OSZ(s)   __CPROVER_old (SZ (s))
+#define OCAP(s)  __CPROVER_old (CAP (s))
+#define UNCHANGED_REP(s) (DATA (s) == ODATA (s) && CAP (s) == OCAP (s) && SZ (s) == OSZ (s))
+/* exactness of lifetimes (C03/C06): a watched cell is live iff it is one of the container's size () elements,
+   or it was live before and was not one of the container's elements (and is not a left-over temporary) */
+#define EXACT1_(s, i, N) IFF (LIVE (i), IN_RANGE (WP[i], DATA (s), SZ (s)) || (__CPROVER_old (WS[i]) != S_RAW && !IN_RANGE (WP[i], ODATA (s), OSZ (s))))
+#define EXACT(s)  (EXACT1_ (s, 0, CAP_N) && EXACT1_ (s, 1, CAP_N) && EXACT1_ (s, 2, CAP_N))
+/* exactness of the allocation ledger (C04/C06): the watched block is live iff it is the container's heap buffer,
+   or it was live before and was not the container's buffer */
+#define EXACTB_(s, N) IFF (WBL, (WB == DATA (s) && CAP (s) != (unsigned long) (N)) || (__CPROVER_old (WBL) != 0 && !(WB == ODATA (s) && OCAP (s) != (unsigned long) (N))))
+#define EXACTB(s)  EXACTB_ (s, CAP_N)
+#define EXACTBM(s) EXACTB_ (s, CAP_M)
+/* cells that belong to neither the old nor the new buffer keep their state */
+#define OUTSIDE1(s, i) IMPLIES (!IN_RANGE (WP[i], DATA (s), CAP (s)) && !IN_RANGE (WP[i], ODATA (s), OCAP (s)) && WP[i] == __CPROVER_old (WP[i]), SAME_CELL (i))
+#define OUTSIDE_UNTOUCHED(s) (OUTSIDE1 (s, 0) && OUTSIDE1 (s, 1) && OUTSIDE1 (s, 2))
+/* strong guarantee (C05): representation and every element unchanged, nothing leaked */
+#define ELEMS_SAME(s) (IMPLIES (IN_RANGE (WP[0], DATA (s), SZ (s)), SAME_CELL (0)) && IMPLIES (IN_RANGE (WP[1], DATA (s), SZ (s)), SAME_CELL (1)))
+#define SAME(s)  (UNCHANGED_REP (s) && ELEMS_SAME (s))
+/* the first n elements are what they were (possibly relocated): destination cell WP[0], old cell WP[1] */
+#define PREFIX_KEPT(s, n) IMPLIES (IN_RANGE (WP[0], DATA (s), n) && IN_RANGE (WP[1], ODATA (s), n) && SAME_INDEX (0, 1, DATA (s), ODATA (s)), WS[0] == __CPROVER_old (WS[1]))
+/* elements [from, size ()) are copies of the entry value of *val (value watched by WP[1]) */
+#define TAIL_FILLED(s, from, val) IMPLIES (IN_RANGE (WP[0], DATA (s), SZ (s)) && OFF (WP[0]) - OFF (DATA (s)) >= ((unsigned long) (from) << ESZ_LOG2) && (val) == WP[1], WS[0] == __CPROVER_old (WS[1]))
+/* growth (C14): a changed capacity is at least the needed size and at least 1.5x the old one, saturating at max_size () */
+#define GROWTH(s, needed) IMPLIES (CAP (s) != OCAP (s), CAP (s) >= (needed) && (CAP (s) - OCAP (s) >= OCAP (s) / 2 || CAP (s) == MAXSZ))
+/* no reallocation (C10) */
+#define NO_REALLOC(s) (DATA (s) == ODATA (s) && CAP (s) == OCAP (s) && alloc_calls == __CPROVER_old (alloc_calls) && dealloc_calls == __CPROVER_old (dealloc_calls))
 
 #endif
